@@ -247,9 +247,9 @@ neutral('C06', 'n-gpu-seed-term', 'wave_sim.py', '            seed = (seed << 4)
 mut('C14', 'sdf-dict-collapse', 'sdf.py', '        cells = dict()\n        for cell_name, entries in (t for t in args if isinstance(t, tuple)):\n            cells.setdefault(cell_name, []).extend(entries)  # a file may have several CELL blocks per instance\n', '        cells = dict(t for t in args if isinstance(t, tuple))\n', 'C14.accumulate')
 mut('C14', 'sdf-loop-overwrite', 'sdf.py', '            cells.setdefault(cell_name, []).extend(entries)  # a file may have several CELL blocks per instance', '            cells[cell_name] = entries', 'C14.accumulate')
 mut('C14', 'polarity-swapped', 'sdf.py', "if i_pin_spec.startswith('(posedge '): i_pol_idxs = [0]\n                    elif i_pin_spec.startswith('(negedge '): i_pol_idxs = [1]", "if i_pin_spec.startswith('(posedge '): i_pol_idxs = [1]\n                    elif i_pin_spec.startswith('(negedge '): i_pol_idxs = [0]", ['C14.polarity', 'C14.landing'])
-mut('C14', 'rise-fall-order', 'sdf.py', "IOPath = namedtuple('IOPath', ['ipin', 'opin', 'r', 'f'])", "IOPath = namedtuple('IOPath', ['ipin', 'opin', 'f', 'r'])", 'C14.triple')
+neutral('C14', 'n-record-field-names', 'sdf.py', "IOPath = namedtuple('IOPath', ['ipin', 'opin', 'r', 'f'])", "IOPath = namedtuple('IOPath', ['ipin', 'opin', 'f', 'r'])")  # the records are built and read positionally: the field names do not reach any delay
 mut('C14', 'single-list-not-duplicated', 'sdf.py', '    if len(args) == 3: args.append(args[2])\n', '    if len(args) == 3: args.append([])\n', 'C14.triple')
-mut('C14', 'empty-triple-differs', 'sdf.py', '            delvals = [d if len(d) > 0 else [0, 0, 0] for d in delvals]', '            delvals = [d if len(d) > 0 else [0, 0] for d in delvals]', 'C14.triple')
+mut('C14', 'empty-triple-differs', 'sdf.py', '            delvals = [d if len(d) > 0 else [0, 0, 0] for d in delvals]', '            delvals = [d if len(d) > 0 else [0, 0] for d in delvals]', ['C14.triple', 'C14.landing'])
 mut('C14', 'dataset-axis', 'sdf.py', '            delays[line, :] = delvals\n\n        return np.moveaxis(delays, -1, 0)', '            delays[line, :] = delvals\n\n        return np.moveaxis(delays, -1, 1)', 'C14.shape')
 mut('C14', 'iopath-output-pin', 'sdf.py', 'if line := cell.ins[tlib.pin_index(cell.kind, i_pin_spec)]:', 'if line := cell.ins[tlib.pin_index(cell.kind, o_pin_spec)]:', ['C14.pin', 'C14.landing'])
 mut('C14', 'interconnect-wrong-fork', 'sdf.py', '                assert f1.outs[f2.ins[0].driver_pin] == f2.ins[0]\n                line = f2.ins[0]', '                assert f1.outs[f2.ins[0].driver_pin] == f2.ins[0]\n                line = f1.ins[0]', ['C14.pin', 'C14.landing'])
@@ -409,6 +409,7 @@ _on_refactoring('C02', 'hb5+view-alias', 'HB-5', 'logic_sim.py', 'logic.bp4v_and
 _EVALUATED_ALIAS = {
     'C11': ({'C11.range', 'C11.decl', 'C11.ports', 'C11.pins', 'C11.const', 'C11.names'}, 'C11.netlist'),
     'C18': ({'C18.chain', 'C18.rank', 'C18.order'}, 'C18.maps'),
+    'C14': ({'C14.accumulate', 'C14.triple'}, 'C14.records'),
 }
 for _m in M:
     _al = _EVALUATED_ALIAS.get(_m.get('prop'))
